@@ -58,6 +58,11 @@ def cover(label):
     """reachability marker (vacuity guard): counted when executed"""
 
 
+def concretize(x):
+    """fork the path over every feasible value of a (small-range) symbolic int; natively the identity"""
+    return x
+
+
 def is_symbolic(x):
     return False
 
